@@ -276,6 +276,7 @@ func (s *Service) temporaryConn(w http.ResponseWriter, r *http.Request, cb func(
 			cb(c, rs)
 		}
 	})
+	verifHTTPWait(c)
 	<-done
 }
 
